@@ -141,6 +141,7 @@ func init() {
 			guard(r, "SAVEDONLY", func() { ruleSAVEDONLY(w, r) })
 			guard(r, "ERRIDENT", func() { ruleERRIDENT(w, r) })
 			guard(r, "OPTKEEP", func() { ruleOPTKEEP(w, r) })
+			guard(r, "SIZESENT", func() { ruleSIZESENT(w, r) })
 			guard(r, "FIELDCROSS", func() { ruleFIELDCROSS(w, r) })
 			guard(r, "WGUARD", func() { ruleWGUARD(w, r, false) })
 			guard(r, "SKIPOK", func() { ruleSKIPOK(w, r) })
@@ -300,6 +301,13 @@ func init() {
 			guard(r, "ERRFLOW", func() { ruleERRFLOW(w, r, errflowScope{fnNames: matrixChain, tag: " on the matrix chain"}, 3) })
 			guard(r, "ELIM", func() { ruleELIM(w, r) })
 			guard(r, "INVSOLVE", func() { ruleINVSOLVE(w, r) })
+			guard(r, "TABLEFILL", func() {
+				if w.GOARCH == "amd64" {
+					ruleTABLEFILL(w, r, 2, "mulTable", "mulTable64")
+				} else {
+					ruleTABLEFILL(w, r, 1, "mulTable")
+				}
+			})
 			guard(r, "ROWCOVER", func() { ruleROWCOVER(w, r) })
 			if w.GOARCH == "amd64" {
 				// row scaling and scaled row addition run through the bulk kernels
@@ -318,6 +326,7 @@ func init() {
 			guard(r, "OWN", func() { ruleOWN(w, r, ownOpts{kernels: true}) })
 			guard(r, "DETERM", func() { r.rule("DETERM", ruleDETERMText); determGoroutineOption(w, r) })
 			guard(r, "PAIR", func() { rulePAIRpar2(w, r, pairOpts{encoder: true, decoder: true}) })
+			guard(r, "GOPT", func() { ruleGOPT(w, r) })
 			guard(r, "TABLEFILL", func() {
 				if w.GOARCH == "amd64" {
 					ruleTABLEFILL(w, r, 2, "mulTable", "mulTable64")
@@ -348,6 +357,8 @@ func init() {
 			guard(r, "IFSCPAIRS", func() { ruleIFSCPAIRS(w, r) })
 			guard(r, "ERRIDENT", func() { ruleERRIDENT(w, r) })
 			guard(r, "SLICECAP", func() { ruleSLICECAP(w, r) })
+			guard(r, "SHARDTAB", func() { ruleSHARDTAB(w, r) })
+			guard(r, "EFF", func() { ruleEFF(w, r, effOpts{e1: true, impl: true}) })
 			guard(r, "NOWRITE", func() { ruleNOWRITE(w, r) })
 			guard(r, "PAIR", func() { rulePAIRpar2(w, r, pairOpts{decoder: true}) })
 		},
@@ -365,6 +376,8 @@ func init() {
 			guard(r, "GETKEYS", func() { ruleGETKEYS(w, r) })
 			guard(r, "NOWRITE", func() { ruleNOWRITE(w, r) })
 			guard(r, "NEEDSLICE", func() { ruleNEEDSLICE(w, r) })
+			guard(r, "SIZESENT", func() { ruleSIZESENT(w, r) })
+			guard(r, "FILTER", func() { ruleFILTER(w, r) })
 			guard(r, "GLOB", func() { ruleGLOB(w, r, globOpts{literal: true, complete: true}) })
 			guard(r, "SKIPOK", func() { ruleSKIPOK(w, r) })
 			guard(r, "WGUARD", func() { ruleWGUARD(w, r, false) })
@@ -386,7 +399,7 @@ func init() {
 			guard(r, "NAMEFID", func() { ruleNAMEFID(w, r) })
 			guard(r, "ANCHOR", func() { ruleANCHOR(w, r, "", 6) })
 			guard(r, "DETERM", func() { r.rule("DETERM", ruleDETERMText); determPathsPar2(w, r, false) })
-			guard(r, "EFF", func() { ruleEFF(w, r, effOpts{e1: true, e2: true}) })
+			guard(r, "EFF", func() { ruleEFF(w, r, effOpts{e1: true, e2: true, implDir: true}) })
 		},
 	})
 
@@ -445,6 +458,7 @@ func init() {
 			guard(r, "SHLEN", func() { ruleSHLEN(w, r) })
 			guard(r, "IFSCPAIRS", func() { ruleIFSCPAIRS(w, r) })
 			guard(r, "SLICECAP", func() { ruleSLICECAP(w, r) })
+			guard(r, "SHARDTAB", func() { ruleSHARDTAB(w, r) })
 			guard(r, "NILF", func() { ruleNILF(w, r) })
 			guard(r, "MKLEN", func() { ruleMKLEN(w, r) })
 			guard(r, "RANGE", func() { ruleRANGE(w, r, []string{"par1", "par2"}, 0) })
